@@ -377,20 +377,22 @@ package nbio
 //@   note close callback (engine wrapper + user code): reaches the connection only through its public methods; no method clears closed, and only a token holder tears down
 //@   ensures c.closed == old(c.closed) && c.closeErr == old(c.closeErr) && c.gNotified == old(c.gNotified) && c.gTok == old(c.gTok) && c.writeList == old(c.writeList)
 //@   ensures c.p == old(c.p) && c.fd == old(c.fd) && c.typ == old(c.typ) && c.connUDP == old(c.connUDP) && holds(c.mux) == old(holds(c.mux))
+//@   note the deadline setters take the connection mutex, which the thread that tears down holds: the callback cannot have changed the timers
+//@   ensures c.rTimer == old(c.rTimer) && c.wTimer == old(c.wTimer)
 //@   ensures old(JobInv(c)) ==> JobInv(c)
 
 //@ func (*udpConn).Close
 //@   trusted
 //@   havoc
 //@   note UDP session teardown (closes children); not under contract
-//@   ensures forall x *Conn :: old(x.closed) ==> x.closed && x.closeErr == old(x.closeErr) && x.gNotified == old(x.gNotified) && x.gTok == old(x.gTok) && x.writeList == old(x.writeList) && x.typ == old(x.typ) && x.fd == old(x.fd) && x.p == old(x.p) && (old(JobInv(x)) ==> JobInv(x)) && holds(x.mux) == old(holds(x.mux))
+//@   ensures forall x *Conn :: old(x.closed) ==> x.closed && x.closeErr == old(x.closeErr) && x.gNotified == old(x.gNotified) && x.gTok == old(x.gTok) && x.writeList == old(x.writeList) && x.typ == old(x.typ) && x.fd == old(x.fd) && x.p == old(x.p) && (old(JobInv(x)) ==> JobInv(x)) && holds(x.mux) == old(holds(x.mux)) && x.rTimer == old(x.rTimer) && x.wTimer == old(x.wTimer)
 
 //@ func (*poller).deleteConn
 //@   props C03
 //@   safety index slice nil div assert panic make
 //@   requires p.g != nil && c != nil && 0 <= c.fd && c.fd < len(p.g.connsUnix) && c.closed
 //@   ensures once: c.gNotified == old(c.gNotified) + ite(c.typ != ConnTypeUDPServer, 1, 0)        // prop C03
-//@   ensures keep: c.closed && c.closeErr == old(c.closeErr) && c.gTok == old(c.gTok) && c.writeList == old(c.writeList) && c.typ == old(c.typ) && c.fd == old(c.fd) && c.connUDP == old(c.connUDP) && c.p == old(c.p) && holds(c.mux) == old(holds(c.mux))   // prop C03
+//@   ensures keep: c.closed && c.closeErr == old(c.closeErr) && c.gTok == old(c.gTok) && c.writeList == old(c.writeList) && c.typ == old(c.typ) && c.fd == old(c.fd) && c.connUDP == old(c.connUDP) && c.p == old(c.p) && holds(c.mux) == old(holds(c.mux)) && c.rTimer == old(c.rTimer) && c.wTimer == old(c.wTimer)   // prop C03
 //@   ensures jobs: old(JobInv(c)) ==> JobInv(c)                                                    // prop C05
 //@   assigns everything
 //@   at before:onClose#1 assert cause: arg_err == c.closeErr                                      // prop C03
@@ -404,13 +406,13 @@ package nbio
 //@   ensures once: c.gNotified == old(c.gNotified) + ite(c.p != nil && c.typ != ConnTypeUDPServer, 1, 0)   // prop C03
 //@   ensures cause: c.closeErr == err && c.closed                                                  // prop C03
 //@   ensures released: c.writeList == nil                                                          // prop C03 C11
-//@   ensures keep: c.p == old(c.p) && c.typ == old(c.typ) && holds(c.mux) == old(holds(c.mux))
+//@   ensures keep: c.p == old(c.p) && c.typ == old(c.typ) && holds(c.mux) == old(holds(c.mux)) && c.rTimer == old(c.rTimer) && c.wTimer == old(c.wTimer)
 //@   ensures jobs: old(JobInv(c)) ==> JobInv(c)                                                    // prop C05
 //@   assigns everything, c.gTok
 //@   at entry ghost { c.gTok = false }
 //@   loop 1
 //@     invariant (old(JobInv(c)) ==> JobInv(c)) && holds(c.mux) == old(holds(c.mux))
-//@     invariant c.closed && c.closeErr == err && c.p == old(c.p) && c.typ == old(c.typ) && c.fd == old(c.fd) && c.connUDP == old(c.connUDP) && c.writeList == old(c.writeList) && !c.gTok && c.gNotified == old(c.gNotified)
+//@     invariant c.closed && c.closeErr == err && c.p == old(c.p) && c.typ == old(c.typ) && c.fd == old(c.fd) && c.connUDP == old(c.connUDP) && c.writeList == old(c.writeList) && !c.gTok && c.gNotified == old(c.gNotified) && c.rTimer == old(c.rTimer) && c.wTimer == old(c.wTimer)
 //@     invariant -1 <= rangeindex && (rangeindex < len(c.writeList) || len(c.writeList) == 0)
 //@     invariant c.p != nil && c.p.g != nil && c.p.g.Config.BodyAllocator != nil && c.p.g.connsUnix == old(c.p.g.connsUnix) && c.p.g == old(c.p.g)
 //@     invariant forall p int {mem(c.writeList, p)} :: qlo(c) + rangeindex + 1 <= p && p < qhi(c) ==> mem(c.writeList, p) != nil && alloc(mem(c.writeList, p)) && (mem(c.writeList, p).buf != nil ==> liveP[mem(c.writeList, p).buf] && bufOwner[mem(c.writeList, p).buf] == mem(c.writeList, p))
